@@ -427,6 +427,7 @@ class Scheduler:
         self.p_switch = p_switch
         self.collect = collect
         self.max_switch = max_switch    # random mode: at most this many preemptions
+        self.chooser = None             # optional callable(sched, enabled, cur) -> actor id or None (scripted scenarios)
         self.nswitch = 0
 
     def yield_point(self, actor, desc):
@@ -478,7 +479,10 @@ class Scheduler:
             enabled = tuple(a for a, g in self.glets.items() if not g.dead)
             if not enabled:
                 break
-            if step < len(self.prefix):
+            pick = self.chooser(self, enabled, cur) if self.chooser is not None else None
+            if pick is not None and pick in enabled:
+                ch = pick
+            elif step < len(self.prefix):
                 ch = self.prefix[step]
                 if ch not in enabled:
                     ch = cur if cur in enabled else enabled[0]
